@@ -7,7 +7,9 @@
     so `d[['a.x']]` is the mapping `{'a.x': d['a']['x']}`.
   * `d - (k1, ..., kn)` (`__sub__` with a tuple, :62-70): a PATH; the last key is deleted in the branch the other keys lead to,
     nothing happens when the path leaves the tree.  (Since fix cd42bbe the branches on the path are copied, so `d` is unchanged;
-    the model is a pure function.)  `TypeError` when the path runs into a number / `None` (`'x' in 5`).
+    the model is a pure function.)  Nothing happens either when the path runs into a leaf - a string, a number, `None`, a list, a
+    tuple: only mappings are walked (`isinstance(branch, dict)`, the fix of review v2 W5; before it `'x' in 5` raised TypeError,
+    `'u' in 'u'` was a substring test followed by an item deletion on the string, and `d - ('b', 1)` deleted ELEMENT 1 of a list).
 -/
 import PygModel.Tree
 import PygModel.USet
@@ -19,7 +21,7 @@ open Pyg
 def getKeyD (d : D Val) (k : String) : Res Val :=
   match lookup k d.items with
   | some v => pure v
-  | none => Tree.getDotted (.dict d.items) (k.splitOn ".")
+  | none => Tree.getDotted (.dict d.items) (Tree.splitDots k)
 
 /-- `d[k1, k2, …]` -/
 def getTupleD (d : D Val) (ks : List String) : Res (List Val) := ks.mapM (getKeyD d)
@@ -37,10 +39,7 @@ def delPath : List (String × Val) → List String → Res (List (String × Val)
     match lookup k kvs with
     | none => pure kvs
     | some (.dict sub) => do pure (set k (.dict (← delPath sub (k' :: rest))) kvs)
-    | some (.cell (.str _)) => throw Err.other      -- substring test, then item deletion on a str: not generated
-    | some (.list _) => pure kvs                      -- `k in [..]` is False for the generated lists of numbers
-    | some (.tuple _) => pure kvs
-    | some _ => throw Err.type                        -- `k in 5`, `k in None`
+    | some _ => pure kvs      -- a path that runs into a leaf (a string, a number, None, a list, a tuple) is not there: nothing happens
 
 /-- `d - (k1, …, kn)` -/
 def subPath (d : D Val) (path : List String) : Res (D Val) :=
